@@ -219,6 +219,15 @@ def run_shard(shard, tier, seed):
                 for f, idn in cases:
                     t.identity = idn
                     compare(rep, "list_identity", f, idn, call(pycomm3.CIPDriver.list_identity, "10.0.0.1"), "list")
+            # ListIdentity needs no session: a device that is out of sessions (refuses RegisterSession, with or without a handle in the
+            # refusal) still reports its identity, also to the Logix and SLC driver classes
+            for sess in ("refuse", "refuse-with-handle"):
+                t = make_target(policy=enip.Policy(session=sess))
+                with net.World(t, io_budget=10**8):
+                    for f, idn in cases[:: max(1, len(cases) // 40)]:
+                        t.identity = idn
+                        for cls_ in (pycomm3.CIPDriver, pycomm3.LogixDriver, pycomm3.SLCDriver):
+                            compare(rep, f"list_identity/session-refused/{cls_.__name__}", f, idn, call(cls_.list_identity, "10.0.0.1"), "list")
         elif ep == "discover":
             class T(enip.Target):
                 ids = []
@@ -304,6 +313,18 @@ def run_shard(shard, tier, seed):
                     for slot in range(5):
                         want_idn = topo[tuple(pre) + ((1, bytes([slot])),)]
                         compare(rep, "get_module_info/topology", "slot", want_idn, call(d.get_module_info, slot), "module")
+                    call(d.close)
+                    # E2: module and controller identities asked in turn on one driver: asking about a slot does not re-route the driver
+                    d = pycomm3.LogixDriver(dpath, init_tags=False)
+                    pycomm3.CIPDriver.open(d)
+                    own = topo[tuple(pre) + ((1, bytes([int(dpath.rsplit("/", 1)[1])])),)]
+                    for slot in (4, 0, 2, 2, 1):
+                        want_idn = topo[tuple(pre) + ((1, bytes([slot])),)]
+                        compare(rep, "get_module_info/history", "slot", want_idn, call(d.get_module_info, slot), "module")
+                        compare(rep, "get_plc_info/after-module-info", "slot", own, call(d.get_plc_info), "plc")
+                        ucs = call(d.generic_message, service=1, class_code=1, instance=1, connected=False, unconnected_send=True, route_path=True, data_type=pycomm3.custom_types.ModuleIdentityObject)
+                        compare(rep, "generic_message/after-module-info", "slot", own, ("ok", ucs[1].value) if ucs[0] == "ok" else ucs, "module")
+                    pycomm3.CIPDriver.close(d)
         else:
             micro = ep.endswith("micro800")
             t = make_target()
